@@ -403,23 +403,41 @@ func (r *resolver) senderPower(e gmsl.PDU) int64 {
 			continue
 		}
 		var c struct {
-			Users        map[string]json.Number `json:"users"`
-			UsersDefault json.Number            `json:"users_default"`
+			Users        map[string]json.RawMessage `json:"users"`
+			UsersDefault json.RawMessage            `json:"users_default"`
 		}
-		if json.Unmarshal(ae.Content(), &c) != nil {
-			// non-integer levels (string levels of old room versions):
-			// defer to the library's parser for the sort key only
+		plainInt := func(raw json.RawMessage) (int64, bool) {
+			var n json.Number
+			if len(raw) == 0 || raw[0] == '"' || json.Unmarshal(raw, &n) != nil {
+				return 0, false
+			}
+			v, err := n.Int64()
+			return v, err == nil
+		}
+		viaLibrary := func() int64 {
+			// non-integer levels (strings / floats of old room versions):
+			// defer to the library's parser, for the sort key only
 			if pl, err := ae.PowerLevels(); err == nil {
 				return pl.UserLevel(spec.SenderID(sender))
 			}
 			return 0
 		}
-		if v, ok := c.Users[sender]; ok {
-			n, _ := v.Int64()
-			return n
+		if json.Unmarshal(ae.Content(), &c) != nil {
+			return viaLibrary()
 		}
-		n, _ := c.UsersDefault.Int64()
-		return n
+		if raw, ok := c.Users[sender]; ok {
+			if v, ok := plainInt(raw); ok {
+				return v
+			}
+			return viaLibrary()
+		}
+		if len(c.UsersDefault) == 0 {
+			return 0
+		}
+		if v, ok := plainInt(c.UsersDefault); ok {
+			return v
+		}
+		return viaLibrary()
 	}
 	return 0
 }
